@@ -15,6 +15,9 @@
 #define KEY_MAGIC 0xC3A55Au
 #define MSG_MAGIC 0x9D17E3u
 #define STK_SIZE (256 * 1024)
+/* the differential oracle reads the GP and vector registers; the AVX512 mask registers (dump bytes 2176..2239) hold predicates
+ * (lane / parity masks that can differ with one key bit), not key material - the pattern oracle still scans them */
+#define DIFF_REGS_END 2176
 static uint8_t *stk;  /* private stack */
 static uint8_t dump[TDUMP_SIZE] __attribute__((aligned(64)));
 static IMB_MGR *m;
@@ -645,7 +648,7 @@ run_direct(long item, void *arg)
                 const size_t lo[3] = { 0, TDUMP_SIZE, TDUMP_SIZE + DSTK };
                 for (int w = 0; w < 2; w++) {
                         long cnt = 0, first = -1;
-                        for (size_t o = lo[w]; o + 4 <= lo[w + 1]; o += 4)
+                        for (size_t o = lo[w]; o + 4 <= (w == 0 ? DIFF_REGS_END : lo[w + 1]); o += 4)
                                 if (memcmp(DS[0][c] + o, DS[1][c] + o, 4) && !memcmp(DS[0][c] + o, DS[2][c] + o, 4) &&
                                     !memmem(DOUT[c], DOUTSZ[c], DS[0][c] + o, 4)) { /* not (a copy of) what the call returned to its caller */
                                         cnt += 4;
@@ -722,23 +725,40 @@ inputs_diff(int i)
         memset(b->tag, 0, sizeof b->tag);
         memset(b->niv, 0, sizeof b->niv);
 }
+/* register dump right after every submit / get_completed / flush call of the current run, and whether the queue was empty then */
+#define DMAXCALLS 96
+static uint8_t CDUMP[3][DMAXCALLS][TDUMP_SIZE];
+static uint8_t CEMPTY[3][DMAXCALLS];
+static int g_run, g_ncalls;
+static uint64_t
+dcall(void *fn)
+{
+        const uint64_t r = pcall(fn, (uint64_t) m, 0, 0, 0, 0, 0);
+        if (g_ncalls < DMAXCALLS) {
+                memcpy(CDUMP[g_run][g_ncalls], dump, TDUMP_SIZE);
+                CEMPTY[g_run][g_ncalls] = IMB_QUEUE_SIZE(m) == 0; /* plain call: the dump is already saved */
+                g_ncalls++;
+        }
+        return r;
+}
 static int
 diff_sched(int n)
 {
         int done = 0;
+        g_ncalls = 0;
         for (int i = 0; i < n; i++) {
                 inputs_diff(i);
                 IMB_JOB *j = (IMB_JOB *) pcall((void *) m->get_next_job, (uint64_t) m, 0, 0, 0, 0, 0);
                 item_t it;
                 mk(&it, i, (i + n) & 3);
                 alg_fill(m, j, &it);
-                IMB_JOB *r = (IMB_JOB *) pcall((void *) m->submit_job, (uint64_t) m, 0, 0, 0, 0, 0);
+                IMB_JOB *r = (IMB_JOB *) dcall((void *) m->submit_job);
                 while (r) {
                         done++;
-                        r = (IMB_JOB *) pcall((void *) m->get_completed_job, (uint64_t) m, 0, 0, 0, 0, 0);
+                        r = (IMB_JOB *) dcall((void *) m->get_completed_job);
                 }
         }
-        while (pcall((void *) m->flush_job, (uint64_t) m, 0, 0, 0, 0, 0))
+        while (dcall((void *) m->flush_job))
                 done++;
         return done == n && pcall((void *) m->queue_size, (uint64_t) m, 0, 0, 0, 0, 0) == 0;
 }
@@ -801,6 +821,7 @@ run_diff_variant(long item, void *arg)
                         KS[0] = keyset_new_at(m, kid, KMEM[0]);
                         KS[1] = keyset_new_at(m, kid + 1, KMEM[1]);
                         g_msgseed = r == 2 ? 7000 : 0;
+                        g_run = r;
                         memcpy(m, pristine, mgr_sz);
                         memset(stk, 0xA5, STK_SIZE);
                         ok &= diff_sched(n);
@@ -814,13 +835,53 @@ run_diff_variant(long item, void *arg)
                 if (!ok)
                         continue; /* completion itself is C05's business */
                 snprintf(sched, sizeof sched, "submit %d jobs (length cycle %d), flush all; three-run differential", n, g_lenset);
+                /* registers right after every call that left the queue empty (the snapshot below only has the last call's) */
+                for (int c = 0; c < g_ncalls; c++) {
+                        if (!CEMPTY[0][c] || !CEMPTY[1][c] || !CEMPTY[2][c])
+                                continue;
+                        long cnt = 0, first = -1;
+                        for (size_t o = 0; o + 4 <= DIFF_REGS_END; o += 4)
+                                if (memcmp(CDUMP[0][c] + o, CDUMP[1][c] + o, 4) && !memcmp(CDUMP[0][c] + o, CDUMP[2][c] + o, 4)) {
+                                        cnt += 4;
+                                        if (first < 0)
+                                                first = (long) o;
+                                }
+                        if (cnt >= 8 && g_diag_w == 1) {
+                                printf("DIAG %s call %d of %d: register dump offset %ld, %ld bytes\n", g_name, c, g_ncalls, first, cnt);
+                                for (int r = 0; r < 3; r++) {
+                                        printf("  R%d: ", r);
+                                        for (int q = 0; q < 32; q++)
+                                                printf("%02x%s", CDUMP[r][c][first + q], (q & 7) == 7 ? " " : "");
+                                        printf("\n");
+                                }
+                                exit(0);
+                        }
+                        if (cnt >= 8) {
+                                char sig[220];
+                                snprintf(sig, sizeof sig, "C13|diff|regs-call|%s|%s", g_name, VARIANTS[g_v].name);
+                                n_hits++;
+                                if (!rec_sig_ok(sig, 2))
+                                        continue;
+                                rec_begin("viol");
+                                rec_s("site", "residue");
+                                rec_s("where", "registers");
+                                rec_s("secret", "key-derived-state");
+                                rec_s("alg", g_name);
+                                rec_s("variant", VARIANTS[g_v].name);
+                                rec_s("schedule", sched);
+                                rec_i("offset", first);
+                                rec_i("key_derived_bytes", cnt);
+                                rec_i("call_index", c);
+                                rec_end();
+                        }
+                }
                 static const struct {
                         const char *where;
                 } W[3] = { { "manager" }, { "registers" }, { "stack" } };
                 const size_t lo[4] = { 0, mgr_sz, mgr_sz + sizeof dump, SNAP };
                 for (int w = 0; w < 3; w++) {
                         long cnt = 0, first = -1;
-                        for (size_t o = lo[w]; o + 4 <= lo[w + 1]; o += 4)
+                        for (size_t o = lo[w]; o + 4 <= (w == 1 ? lo[w] + DIFF_REGS_END : lo[w + 1]); o += 4)
                                 if (memcmp(S[0] + o, S[1] + o, 4) && !memcmp(S[0] + o, S[2] + o, 4)) {
                                         cnt += 4;
                                         if (first < 0)
